@@ -154,3 +154,12 @@ def replay_c09(model, params, clause, info):
     bad = [v for v in r["violations"] if not any(p.fullmatch("bounded:" + v["key"]) for p in pats)]
     return {"violates": bool(bad), "detail": "; ".join(f"{v['key']}: {v['detail']}" for v in bad[:5])[:700] or "structured kernels / interpolation agree with their dense meaning on the real code (known findings aside)",
             "entry": {"module": "contracts.C09_structured", "function": "replay_c09", "args": [model, list(params), clause, info]}}
+
+
+@case("C09", clause="grid_update_drops_cache", name="grid_update", expand=lambda ix: [(interp,) for interp in (True, False)], replay=lambda *a: replay_c09(*a),
+      functions=["gpytorch.kernels.grid_kernel.GridKernel.update_grid", "gpytorch.kernels.grid_kernel.GridKernel._clear_cache"])
+def grid_update(c, interpolation_mode):
+    """'equals the dense formula it abbreviates' includes after re-gridding: update_grid must drop the cached K_UU of the old grid in interpolation mode too
+    (KISS-GP re-grids in evaluation mode), and install the new grid (the C03 contract, shared)"""
+    from contracts import C03_caches as c03
+    return c03.grid_update(c, interpolation_mode)
